@@ -41,13 +41,14 @@ FIELDS = [
     ("STATUS", '"ACTIVE"', "REQ∧ENUM[ACTIVE,DONE]"), ("COUNT", "3", "TYPE[NUMBER]∧RANGE[0,10]"), ("NAME", '"x"', "REQ∧TYPE[STRING]"),
     ("TAGS", '["a"]', "TYPE[LIST]∧MAX_LENGTH[3]"), ("FLAG", "true", "TYPE[BOOLEAN]"), ("VER", '"1.0"', 'CONST["1.0"]'),
     ("WHEN", '"2024-01-15"', "DATE"), ("FLOW", '"A→B"', 'REGEX["^[A-Z]→[A-Z]$"]'), ("BIG", "1", "TYPE[NUMBER]"), ("WORDS", '"a b"', "MIN_LENGTH[3]∧TYPE[STRING]"),
+    ("PATTERN", "5", "TYPE[NUMBER]∧RANGE[0,9]"), ("REGEX", "true", "TYPE[BOOLEAN]"),       # the two keys the emitter always quotes for STRING values
     ("PCT", '"2.50%"', 'REGEX["^[0-9]+[.][0-9][0-9]%$"]'), ("OWNER", '"o"', "TYPE[STRING]→§AUDIT"),      # AUDIT is NOT declared in POLICY.TARGETS
 ]
 S, A, B, Lst, I, F, Bo, Doc, Sec = dm.S, dm.A, dm.B, dm.Lst, dm.I, dm.F, dm.Bo, dm.Doc, dm.Sec
 
 BASE = {
     "STATUS": S("ACTIVE"), "COUNT": I(5), "NAME": S("nm"), "TAGS": Lst(S("a"), S("b")), "FLAG": Bo(True), "VER": S("1.0", "quoted"),
-    "WHEN": S("2024-01-15", "quoted"), "FLOW": S("A→B", "bare"), "BIG": F(1e16), "WORDS": S("hello world", "quoted"), "PCT": S("2.50%", "quoted"), "OWNER": S("me"),
+    "WHEN": S("2024-01-15", "quoted"), "FLOW": S("A→B", "bare"), "BIG": F(1e16), "WORDS": S("hello world", "quoted"), "PCT": S("2.50%", "quoted"), "OWNER": S("me"), "PATTERN": I(5), "REGEX": Bo(True),
 }
 
 
@@ -84,6 +85,8 @@ def variant_docs():
     mk("nested-block-last", dict(BASE), extra_nodes=[B("SUB", [A("X", I(1))])])
     mk("duplicate-field", dict(BASE), extra_nodes=[A("COUNT", I(99))])
     mk("bad:PCT:short", dict(BASE, PCT=S("2.5%", "quoted")))
+    mk("wrong-case-literal-strings", dict(BASE, NAME=S("True", "quoted"), OWNER=S("NULL", "quoted"), WORDS=S("FALSE", "quoted")))
+    mk("bad:PATTERN:string", dict(BASE, PATTERN=S("5", "quoted")))
     # the schema block carries an inheritance target (with and without the marker): it is registered as a routing target for THIS
     # document only; validating it must not change what the same schema object answers for the other documents
     out.append(("block-target", Doc([B(SCHEMA, [A(k, v) for k, v in BASE.items()], target="AUDIT"), A("OUTSIDE", S("o"))], name="I",
